@@ -1,10 +1,1238 @@
-//! `codec-*` harness commands.
+//! `codec-*` harness commands (property C11): machine strings round-trip, hostile strings are
+//! rejected safely, for `Machine::from_str` / `Machine::serialize` and the legacy
+//! `parsing::parse_v1_machine`.
+//!
+//!   mbharness codec-gen --kind valid|hostile|v1|bomb --seed N --cases N [--max-states K]
+//!   mbharness codec-replay            (case inputs on stdin: `case <id> <kind..>` + `m <hex>` / `s <hex>`)
+//!   mbharness codec-probe-state       (parse_state with an overflowing num_states)
+//!
+//! Every case block carries the *input* (`m` = bincode of the machine for `valid`, `s` = the
+//! bytes of the string for the others) and what the real code did with it, including the
+//! intermediate stages of a replica of the `from_str` pipeline (same crates, same calls), so that
+//! the Lean model needs no inflate of its own.
 
-use std::io::Write;
+#[path = "alloc.rs"]
+pub mod alloc;
 
-/// Returns false if `sub` is not a command of this module.
-pub fn cmd(sub: &str, _args: &[String], _w: &mut dyn Write) -> bool {
+use crate::util::{hex, unhex, Prng};
+use base64::prelude::*;
+use bincode::Options;
+use enum_map::enum_map;
+use flate2::read::ZlibDecoder;
+use flate2::write::ZlibEncoder;
+use flate2::Compression;
+use maybenot::action::Action;
+use maybenot::constants::{MAX_DECOMPRESSED_SIZE, STATE_END, STATE_SIGNAL, VERSION};
+use maybenot::counter::{Counter, Operation};
+use maybenot::dist::{Dist, DistType};
+use maybenot::event::Event;
+use maybenot::state::{State, Trans};
+use maybenot::{Machine, Timer};
+use std::io::{Read, Write};
+use std::panic::{catch_unwind, AssertUnwindSafe};
+use std::str::FromStr;
+
+pub fn cmd(sub: &str, args: &[String], w: &mut dyn Write) -> bool {
     match sub {
+        "codec-gen" => {
+            let seed: u64 = crate::arg_val(args, "--seed").and_then(|s| s.parse().ok()).unwrap_or(1);
+            let cases: u64 = crate::arg_val(args, "--cases").and_then(|s| s.parse().ok()).unwrap_or(100);
+            let kind = crate::arg_val(args, "--kind").unwrap_or_else(|| "valid".into());
+            let max_states: usize = crate::arg_val(args, "--max-states").and_then(|s| s.parse().ok()).unwrap_or(400);
+            let big: u64 = crate::arg_val(args, "--big").and_then(|s| s.parse().ok()).unwrap_or(0);
+            let mut p = Prng::new(seed ^ fx(&kind));
+            for i in 0..cases {
+                let mut cp = p.fork();
+                let id = format!("{}-{}-{}", kind, seed, i);
+                match kind.as_str() {
+                    "valid" => gen_valid_case(&mut cp, &id, i, cases, max_states, w),
+                    "hostile" => gen_hostile_case(&mut cp, &id, w),
+                    "v1" => gen_v1_case(&mut cp, &id, i, w),
+                    "bomb" => gen_bomb_case(&mut cp, &id, i, big, w),
+                    "limit" => gen_limit_case(&mut cp, &id, i, w),
+                    _ => {
+                        eprintln!("unknown codec kind {kind}");
+                        std::process::exit(2);
+                    }
+                }
+            }
+            true
+        }
+        "codec-replay" => {
+            let mut text = String::new();
+            let _ = std::io::stdin().read_to_string(&mut text);
+            replay(&text, w);
+            true
+        }
+        "codec-probe-state" => {
+            probe_state(w);
+            true
+        }
+        "codec-find-f2" => {
+            let seed: u64 = crate::arg_val(args, "--seed").and_then(|s| s.parse().ok()).unwrap_or(1);
+            find_f2(seed, w);
+            true
+        }
         _ => false,
+    }
+}
+
+fn fx(s: &str) -> u64 {
+    let mut h: u64 = 0xcbf29ce484222325;
+    for b in s.bytes() {
+        h ^= b as u64;
+        h = h.wrapping_mul(0x100000001b3);
+    }
+    h
+}
+
+// ---------------------------------------------------------------------------------------------
+// the stages of from_str, replicated with the same crates and calls
+// ---------------------------------------------------------------------------------------------
+
+pub fn bincode_of(m: &Machine) -> Vec<u8> {
+    bincode::DefaultOptions::new().serialize(m).expect("bincode")
+}
+
+fn machine_of(b: &[u8]) -> Option<Machine> {
+    bincode::DefaultOptions::new().deserialize(b).ok()
+}
+
+fn deflate(b: &[u8]) -> Vec<u8> {
+    let mut e = ZlibEncoder::new(Vec::new(), Compression::best());
+    e.write_all(b).unwrap();
+    e.finish().unwrap()
+}
+
+fn deflate_level(b: &[u8], level: u32) -> Vec<u8> {
+    let mut e = ZlibEncoder::new(Vec::new(), Compression::new(level));
+    e.write_all(b).unwrap();
+    e.finish().unwrap()
+}
+
+/// exactly what `from_str` does: ONE `read` into a MAX_DECOMPRESSED_SIZE buffer
+fn read_once(compressed: &[u8]) -> Result<Vec<u8>, String> {
+    let mut decoder = ZlibDecoder::new(compressed);
+    let mut buf = vec![0; MAX_DECOMPRESSED_SIZE];
+    let n = decoder.read(&mut buf).map_err(|e| e.to_string())?;
+    buf.truncate(n);
+    Ok(buf)
+}
+
+struct Replica {
+    stage: &'static str,
+    z: Option<Vec<u8>>,
+    raw: Option<Vec<u8>>,
+    m: Option<Machine>,
+}
+
+fn replica(s: &str) -> Replica {
+    let mut r = Replica { stage: "ok", z: None, raw: None, m: None };
+    if s.len() < 3 {
+        r.stage = "short";
+        return r;
+    }
+    if !s.is_ascii() {
+        r.stage = "ascii";
+        return r;
+    }
+    if s[0..2] != format!("{:02}", VERSION) {
+        r.stage = "version";
+        return r;
+    }
+    let z = match BASE64_STANDARD.decode(s[2..].as_bytes()) {
+        Ok(z) => z,
+        Err(_) => {
+            r.stage = "b64";
+            return r;
+        }
+    };
+    let raw = read_once(&z);
+    r.z = Some(z);
+    let raw = match raw {
+        Ok(x) => x,
+        Err(_) => {
+            r.stage = "zlib";
+            return r;
+        }
+    };
+    let bincoder = bincode::DefaultOptions::new().with_limit(MAX_DECOMPRESSED_SIZE as u64);
+    let m: Result<Machine, _> = bincoder.deserialize(&raw);
+    r.raw = Some(raw);
+    let m = match m {
+        Ok(m) => m,
+        Err(_) => {
+            r.stage = "bincode";
+            return r;
+        }
+    };
+    if m.validate().is_err() {
+        r.stage = "invalid";
+        return r;
+    }
+    r.m = Some(m);
+    r
+}
+
+fn panic_msg(p: &Box<dyn std::any::Any + Send>) -> String {
+    let msg = if let Some(s) = p.downcast_ref::<&str>() {
+        s.to_string()
+    } else if let Some(s) = p.downcast_ref::<String>() {
+        s.clone()
+    } else {
+        "?".to_string()
+    };
+    msg.replace(['\n', '\r'], " ")
+}
+
+// ---------------------------------------------------------------------------------------------
+// observations
+// ---------------------------------------------------------------------------------------------
+
+/// round trip of a machine given by its bincode bytes
+fn observe_valid(id: &str, kind: &str, bytes: &[u8], w: &mut dyn Write) {
+    let _ = writeln!(w, "case {} {}", id, kind);
+    let _ = writeln!(w, "m {}", hex(bytes));
+    let m = match machine_of(bytes) {
+        Some(m) => m,
+        None => {
+            let _ = writeln!(w, "bad not-a-machine");
+            let _ = writeln!(w, "end");
+            return;
+        }
+    };
+    let _ = writeln!(w, "val {}", if m.validate().is_ok() { "ok" } else { "err" });
+    let s = catch_unwind(AssertUnwindSafe(|| m.serialize()));
+    let s = match s {
+        Ok(s) => s,
+        Err(p) => {
+            let _ = writeln!(w, "ser panic {}", panic_msg(&p));
+            let _ = writeln!(w, "end");
+            return;
+        }
+    };
+    let _ = writeln!(w, "ser ok {}", s);
+    // the compressed bytes, recovered with the real base64 decoder
+    if s.len() >= 2 {
+        if let Ok(z) = BASE64_STANDARD.decode(s[2..].as_bytes()) {
+            let _ = writeln!(w, "z {}", hex(&z));
+            // the zlib contract on the real path
+            match read_once(&z) {
+                Ok(raw) => {
+                    if raw == bytes {
+                        let _ = writeln!(w, "ro ok {} eq", raw.len());
+                    } else {
+                        let _ = writeln!(w, "ro ok {} ne", raw.len());
+                        let _ = writeln!(w, "rob {}", hex(&raw));
+                    }
+                }
+                Err(_) => {
+                    let _ = writeln!(w, "ro err");
+                }
+            }
+        }
+    }
+    let before = alloc::reset_peak();
+    let r = catch_unwind(AssertUnwindSafe(|| Machine::from_str(&s)));
+    let peak = alloc::peak().saturating_sub(before);
+    match r {
+        Ok(Ok(m2)) => {
+            let _ = writeln!(w, "rt ok");
+            let s2 = catch_unwind(AssertUnwindSafe(|| m2.serialize()));
+            let _ = writeln!(w, "rs {}", match &s2 { Ok(x) if *x == s => "same", Ok(_) => "diff", Err(_) => "panic" });
+            let n1 = catch_unwind(AssertUnwindSafe(|| m.name()));
+            let n2 = catch_unwind(AssertUnwindSafe(|| m2.name()));
+            let _ = writeln!(w, "nm {}", match (n1, n2) { (Ok(a), Ok(b)) if a == b => "same", (Ok(_), Ok(_)) => "diff", _ => "panic" });
+            let _ = writeln!(w, "eq {}", if bincode_of(&m2) == bytes { "same" } else { "diff" });
+        }
+        Ok(Err(e)) => {
+            let _ = writeln!(w, "rt err {}", e.to_string().replace('\n', " "));
+        }
+        Err(p) => {
+            let _ = writeln!(w, "rt panic {}", panic_msg(&p));
+        }
+    }
+    let _ = writeln!(w, "peak {} {} {}", peak, s.len(), std::mem::size_of::<State>());
+    let _ = writeln!(w, "end");
+}
+
+/// `from_str` on an arbitrary string
+fn observe_hostile(id: &str, kind: &str, s: &str, w: &mut dyn Write) {
+    let _ = writeln!(w, "case {} {}", id, kind);
+    let _ = writeln!(w, "s {}", hex(s.as_bytes()));
+    let rep = catch_unwind(AssertUnwindSafe(|| replica(s)));
+    let rep = match rep {
+        Ok(r) => r,
+        Err(p) => {
+            let _ = writeln!(w, "st panic {}", panic_msg(&p));
+            Replica { stage: "panic", z: None, raw: None, m: None }
+        }
+    };
+    let _ = writeln!(w, "st {}", rep.stage);
+    if let Some(z) = &rep.z {
+        let _ = writeln!(w, "z {}", hex(z));
+    }
+    if let Some(raw) = &rep.raw {
+        let _ = writeln!(w, "raw {}", hex(raw));
+    }
+    let before = alloc::reset_peak();
+    let r = catch_unwind(AssertUnwindSafe(|| Machine::from_str(s)));
+    let peak = alloc::peak().saturating_sub(before);
+    match r {
+        Ok(Ok(m)) => {
+            let _ = writeln!(w, "r ok {}", hex(&bincode_of(&m)));
+            let agrees = rep.m.as_ref().map(|x| bincode_of(x) == bincode_of(&m)).unwrap_or(false);
+            if !agrees {
+                let _ = writeln!(w, "replica-mismatch accepted");
+            }
+        }
+        Ok(Err(e)) => {
+            let _ = writeln!(w, "r err {}", e.to_string().replace('\n', " "));
+            if rep.stage == "ok" {
+                let _ = writeln!(w, "replica-mismatch rejected");
+            }
+        }
+        Err(p) => {
+            let _ = writeln!(w, "r panic {}", panic_msg(&p));
+        }
+    }
+    let _ = writeln!(w, "peak {} {} {}", peak, s.len(), std::mem::size_of::<State>());
+    let _ = writeln!(w, "end");
+}
+
+/// `parse_v1_machine` on an arbitrary string
+fn observe_v1(id: &str, kind: &str, s: &str, w: &mut dyn Write) {
+    let _ = writeln!(w, "case {} {}", id, kind);
+    let _ = writeln!(w, "s {}", hex(s.as_bytes()));
+    // replica of the first two stages
+    match hex::decode(s) {
+        Err(_) => {
+            let _ = writeln!(w, "st hex");
+        }
+        Ok(c) => {
+            let mut d = ZlibDecoder::new(c.as_slice());
+            let mut buf = vec![];
+            match d.read_to_end(&mut buf) {
+                Err(_) => {
+                    let _ = writeln!(w, "st zlib");
+                }
+                Ok(_) => {
+                    let _ = writeln!(w, "st ok");
+                    let _ = writeln!(w, "raw {}", hex(&buf));
+                }
+            }
+        }
+    }
+    let r = catch_unwind(AssertUnwindSafe(|| maybenot::parsing::parse_v1_machine(s)));
+    match r {
+        Ok(Ok(m)) => {
+            let _ = writeln!(w, "r ok {}", hex(&bincode_of(&m)));
+            // the accepted machine must also survive the current format
+            let rt = catch_unwind(AssertUnwindSafe(|| Machine::from_str(&m.serialize()).map(|x| x.name() == m.name())));
+            let _ = writeln!(w, "v2 {}", match rt { Ok(Ok(true)) => "ok", Ok(Ok(false)) => "diff", Ok(Err(_)) => "err", Err(_) => "panic" });
+        }
+        Ok(Err(e)) => {
+            let _ = writeln!(w, "r err {}", e.to_string().replace('\n', " "));
+        }
+        Err(p) => {
+            let _ = writeln!(w, "r panic {}", panic_msg(&p));
+        }
+    }
+    let _ = writeln!(w, "end");
+}
+
+fn replay(text: &str, w: &mut dyn Write) {
+    let mut cur: Option<(String, String)> = None;
+    for line in text.lines() {
+        let ws: Vec<&str> = line.split_whitespace().collect();
+        if ws.is_empty() {
+            continue;
+        }
+        match ws[0] {
+            "case" if ws.len() >= 3 => cur = Some((ws[1].to_string(), ws[2..].join(" "))),
+            "m" if ws.len() == 2 => {
+                if let (Some((id, kind)), Some(b)) = (&cur, unhex(ws[1])) {
+                    if kind.starts_with("valid") {
+                        observe_valid(id, kind, &b, w);
+                        cur = None;
+                    }
+                }
+            }
+            "s" => {
+                let b = if ws.len() == 2 { unhex(ws[1]) } else { Some(vec![]) };
+                if let (Some((id, kind)), Some(b)) = (&cur, b) {
+                    if let Ok(s) = String::from_utf8(b) {
+                        if kind.starts_with("v1") {
+                            observe_v1(id, kind, &s, w);
+                        } else if !kind.starts_with("valid") {
+                            observe_hostile(id, kind, &s, w);
+                        }
+                        cur = None;
+                    }
+                }
+            }
+            _ => {}
+        }
+    }
+}
+
+// ---------------------------------------------------------------------------------------------
+// generator of valid machines (all variants, extreme fields, optional incompressible noise)
+// ---------------------------------------------------------------------------------------------
+
+const EVENTS: [Event; 13] = [
+    Event::NormalRecv,
+    Event::PaddingRecv,
+    Event::TunnelRecv,
+    Event::NormalSent,
+    Event::PaddingSent,
+    Event::TunnelSent,
+    Event::BlockingBegin,
+    Event::BlockingEnd,
+    Event::LimitReached,
+    Event::CounterZero,
+    Event::TimerBegin,
+    Event::TimerEnd,
+    Event::Signal,
+];
+
+#[derive(Clone, Copy)]
+struct VOpts {
+    /// fill unchecked float fields with random bits (incompressible)
+    noise: bool,
+    /// percent of events that get a transition vector
+    density: u64,
+    /// percent of states with an action / counters
+    rich: u64,
+    /// allow one long transition vector (> 250 entries: crosses the varint boundary)
+    long_vec: bool,
+}
+
+/// any bit pattern: NaNs with payloads, infinities, subnormals, both zeros
+fn any_f64(p: &mut Prng, noise: bool) -> f64 {
+    if noise {
+        return f64::from_bits(p.next());
+    }
+    match p.below(12) {
+        0 => 0.0,
+        1 => -0.0,
+        2 => f64::from_bits(1),
+        3 => f64::MAX,
+        4 => f64::from_bits(0x7ff8_0000_0000_0000 | (p.next() & 0x7_ffff_ffff_ffff)),
+        5 => f64::from_bits(0xfff0_0000_0000_0001 | (p.next() & 0x7_ffff_ffff_ffff)),
+        6 => f64::INFINITY,
+        7 => f64::NEG_INFINITY,
+        8 => 1.0,
+        9 => f64::MIN_POSITIVE,
+        10 => f64::from_bits(p.next()),
+        _ => 1000.0,
+    }
+}
+
+/// positive finite with moderate exponent
+fn pos_f64(p: &mut Prng, noise: bool) -> f64 {
+    if noise {
+        let mant = p.next() & 0x000f_ffff_ffff_ffff;
+        let exp = 1023 - 60 + p.below(120);
+        f64::from_bits((exp << 52) | mant)
+    } else {
+        *p.pick(&[1.0, 0.5, 2.0, 1e-9, 1e9, 5e-324, f64::MIN_POSITIVE, 1e42, 3.0])
+    }
+}
+
+fn fin_f64(p: &mut Prng, noise: bool) -> f64 {
+    let x = pos_f64(p, noise);
+    match p.below(4) {
+        0 => -x,
+        1 if !noise => 0.0,
+        _ => x,
+    }
+}
+
+fn prob_f64(p: &mut Prng, noise: bool) -> f64 {
+    if noise {
+        let x = (p.next() >> 11) as f64 / (1u64 << 53) as f64;
+        if x < 1e-9 {
+            0.5
+        } else {
+            x
+        }
+    } else {
+        *p.pick(&[0.0, 1.0, 0.5, 1e-9, 0.3, 0.999999999])
+    }
+}
+
+fn gen_vdist(p: &mut Prng, noise: bool) -> Dist {
+    let start = any_f64(p, noise);
+    let max = any_f64(p, noise);
+    let dist = match p.below(11) {
+        0 => {
+            let a = fin_f64(p, noise);
+            let b = fin_f64(p, noise);
+            let (lo, hi) = if a <= b { (a, b) } else { (b, a) };
+            if p.chance(1, 3) {
+                DistType::Uniform { low: hi, high: hi }
+            } else {
+                DistType::Uniform { low: lo, high: hi }
+            }
+        }
+        1 => DistType::Normal { mean: any_f64(p, noise), stdev: fin_f64(p, noise) },
+        2 => DistType::SkewNormal { location: any_f64(p, noise), scale: pos_f64(p, noise), shape: fin_f64(p, noise) },
+        3 => DistType::LogNormal { mu: any_f64(p, noise), sigma: fin_f64(p, noise) },
+        4 => DistType::Binomial {
+            trials: *p.pick(&[0u64, 1, 250, 251, 65535, 65536, 1_000_000_000, 999_999_999]),
+            probability: prob_f64(p, noise),
+        },
+        5 => DistType::Geometric { probability: prob_f64(p, noise) },
+        6 => DistType::Pareto { scale: pos_f64(p, noise), shape: pos_f64(p, noise) },
+        7 => DistType::Poisson { lambda: pos_f64(p, noise) },
+        8 => DistType::Weibull { scale: pos_f64(p, noise), shape: pos_f64(p, noise) },
+        9 => DistType::Gamma { scale: pos_f64(p, noise), shape: if p.chance(1, 4) { 1.0 } else { pos_f64(p, noise) } },
+        _ => DistType::Beta { alpha: pos_f64(p, noise), beta: pos_f64(p, noise) },
+    };
+    let d = Dist { dist, start, max };
+    if d.validate().is_ok() {
+        d
+    } else {
+        Dist { dist: DistType::Uniform { low: 1.0, high: 1.0 }, start, max }
+    }
+}
+
+fn gen_vaction(p: &mut Prng, noise: bool) -> Action {
+    let limit = if p.chance(1, 2) { Some(gen_vdist(p, noise)) } else { None };
+    match p.below(4) {
+        0 => Action::Cancel { timer: *p.pick(&[Timer::Action, Timer::Internal, Timer::All]) },
+        1 => Action::SendPadding { bypass: p.chance(1, 2), replace: p.chance(1, 2), timeout: gen_vdist(p, noise), limit },
+        2 => Action::BlockOutgoing {
+            bypass: p.chance(1, 2),
+            replace: p.chance(1, 2),
+            timeout: gen_vdist(p, noise),
+            duration: gen_vdist(p, noise),
+            limit,
+        },
+        _ => Action::UpdateTimer { replace: p.chance(1, 2), duration: gen_vdist(p, noise), limit },
+    }
+}
+
+fn gen_vcounter(p: &mut Prng, noise: bool) -> Counter {
+    let op = *p.pick(&[Operation::Increment, Operation::Decrement, Operation::Set]);
+    match p.below(3) {
+        0 => Counter::new(op),
+        1 => Counter::new_copy(op),
+        _ => Counter::new_dist(op, gen_vdist(p, noise)),
+    }
+}
+
+const PROBS1: &[f32] = &[1.0, 1.0, 0.5, 1.1920929e-7, 0.99999994, 1e-45, 1.17549435e-38, 0.3];
+
+fn gen_vstate(p: &mut Prng, n: usize, o: &VOpts, long_vec: bool) -> State {
+    let mut t = enum_map! { _ => vec![] };
+    let mut long_done = !long_vec;
+    for e in EVENTS.iter() {
+        if !p.chance(o.density, 100) {
+            continue;
+        }
+        let mut v: Vec<Trans> = vec![];
+        if !long_done && n >= 300 {
+            // 251..300 distinct targets with tiny probabilities
+            long_done = true;
+            let k = p.range(251, 300) as usize;
+            let off = p.below((n - k) as u64 + 1) as usize;
+            for j in 0..k {
+                v.push(Trans(off + j, 1.0 / 1024.0));
+            }
+        } else {
+            let k = p.range(1, 3) as usize;
+            let mut used: Vec<usize> = vec![];
+            for _ in 0..k {
+                let tgt = match p.below(8) {
+                    0 => STATE_END,
+                    1 => STATE_SIGNAL,
+                    2 => n - 1,
+                    3 => 0,
+                    _ => p.below(n as u64) as usize,
+                };
+                if used.contains(&tgt) {
+                    continue;
+                }
+                used.push(tgt);
+            }
+            let probs: Vec<f32> = match used.len() {
+                1 => vec![*p.pick(PROBS1)],
+                2 => p.pick(&[[0.5f32, 0.5], [0.99999994, 5.9604645e-8], [1e-45, 0.25], [0.7, 0.3]]).to_vec(),
+                _ => p.pick(&[[0.3f32, 0.3, 0.3], [0.25, 0.25, 0.5], [0.33333334, 0.33333334, 0.33333334]]).to_vec(),
+            };
+            for (tg, pr) in used.iter().zip(probs.iter()) {
+                v.push(Trans(*tg, *pr));
+            }
+        }
+        t[*e] = v;
+    }
+    let mut s = State::new(t);
+    if p.chance(o.rich, 100) {
+        s.action = Some(gen_vaction(p, o.noise));
+    }
+    let ca = if p.chance(o.rich, 200) { Some(gen_vcounter(p, o.noise)) } else { None };
+    let cb = if p.chance(o.rich, 200) { Some(gen_vcounter(p, o.noise)) } else { None };
+    s.counter = (ca, cb);
+    s
+}
+
+fn gen_vmachine(p: &mut Prng, n: usize, o: &VOpts) -> Machine {
+    let long_at = if o.long_vec && n >= 300 { Some(p.below(n as u64) as usize) } else { None };
+    let mut states = Vec::with_capacity(n);
+    for i in 0..n {
+        states.push(gen_vstate(p, n, o, long_at == Some(i)));
+    }
+    let ints: &[u64] = &[0, 1, 250, 251, 65535, 65536, u32::MAX as u64, u32::MAX as u64 + 1, u64::MAX, 1000];
+    let fracs: &[f64] = &[0.0, -0.0, 1.0, 0.5, 5e-324, f64::MIN_POSITIVE, 0.999999999999, 0.1];
+    let mut m = Machine {
+        allowed_padding_packets: *p.pick(ints),
+        max_padding_frac: *p.pick(fracs),
+        allowed_blocked_microsec: *p.pick(ints),
+        max_blocking_frac: *p.pick(fracs),
+        states,
+    };
+    if o.noise {
+        m.allowed_padding_packets = p.next();
+        m.allowed_blocked_microsec = p.next();
+    }
+    if let Err(e) = m.validate() {
+        panic!("codec generator produced an invalid machine: {e}");
+    }
+    m
+}
+
+fn gen_valid_case(p: &mut Prng, id: &str, i: u64, cases: u64, max_states: usize, w: &mut dyn Write) {
+    // a deterministic spread of sizes: mostly small, a ladder up to max_states, varint boundaries
+    let ladder: &[usize] = &[1, 2, 3, 250, 251, 252, 64, 128, 300, 500, 1000, 2000, 3000, 4000];
+    let n = if i < ladder.len() as u64 && cases > ladder.len() as u64 {
+        ladder[i as usize].min(max_states.max(1))
+    } else {
+        match p.below(10) {
+            0..=5 => p.range(1, 8) as usize,
+            6..=7 => p.range(9, 64.min(max_states as u64).max(9)) as usize,
+            _ => p.range(1, max_states as u64) as usize,
+        }
+    };
+    let n = n.min(max_states).max(1);
+    let noise = p.chance(1, 2);
+    // keep the bincode size under the 1 MiB limit: ~250 bytes per state at most
+    let (density, rich) = if n > 2500 {
+        (8, 30)
+    } else if n > 1200 {
+        (15, 50)
+    } else if n > 400 {
+        (30, 70)
+    } else {
+        (*p.pick(&[10u64, 40, 80, 100]), *p.pick(&[30u64, 70, 100]))
+    };
+    let o = VOpts { noise, density, rich, long_vec: p.chance(1, 3) };
+    let mut m = gen_vmachine(p, n, &o);
+    let mut b = bincode_of(&m);
+    let mut tries = 0;
+    while b.len() > MAX_DECOMPRESSED_SIZE && tries < 8 {
+        // thin out until it fits the documented limit
+        let o2 = VOpts { noise, density: o.density / (tries + 2), rich: o.rich / (tries + 2), long_vec: false };
+        m = gen_vmachine(p, n, &o2);
+        b = bincode_of(&m);
+        tries += 1;
+    }
+    observe_valid(id, "valid", &b, w);
+}
+
+/// Machines at the documented size limit: many copies of one state (highly compressible, so the
+/// compressed form stays far below flate2's 32 KiB chunk): the largest count whose encoding
+/// still fits `MAX_DECOMPRESSED_SIZE` (even `i`), and one state more (odd `i`: `serialize`
+/// panics on its own size limit; outside the property's hypothesis, the model must predict it).
+fn gen_limit_case(p: &mut Prng, id: &str, i: u64, w: &mut dyn Write) {
+    let o = VOpts { noise: false, density: 60, rich: 100, long_vec: false };
+    let proto = gen_vstate(p, 1, &o, false);
+    let mk = |k: usize| Machine {
+        allowed_padding_packets: 1,
+        max_padding_frac: 0.5,
+        allowed_blocked_microsec: 1,
+        max_blocking_frac: 0.5,
+        states: vec![proto.clone(); k],
+    };
+    let per = (bincode_of(&mk(2)).len() - bincode_of(&mk(1)).len()).max(16);
+    let mut k = MAX_DECOMPRESSED_SIZE / per + 2;
+    while bincode_of(&mk(k)).len() > MAX_DECOMPRESSED_SIZE {
+        k -= 1;
+    }
+    let k = if i % 2 == 0 { k } else { k + 1 };
+    let m = mk(k);
+    if m.validate().is_err() {
+        return;
+    }
+    observe_valid(id, if i % 2 == 0 { "valid at-limit" } else { "valid over-limit" }, &bincode_of(&m), w);
+}
+
+// ---------------------------------------------------------------------------------------------
+// hostile strings for from_str
+// ---------------------------------------------------------------------------------------------
+
+fn small_machine(p: &mut Prng) -> Machine {
+    let n = match p.below(4) {
+        0 => 1,
+        1 => p.range(2, 4) as usize,
+        2 => p.range(5, 12) as usize,
+        _ => p.range(1, 40) as usize,
+    };
+    let o = VOpts { noise: p.chance(1, 3), density: *p.pick(&[10u64, 40, 80]), rich: *p.pick(&[30u64, 100]), long_vec: false };
+    gen_vmachine(p, n, &o)
+}
+
+fn b64_string(z: &[u8]) -> String {
+    format!("{:02}{}", VERSION, BASE64_STANDARD.encode(z))
+}
+
+fn mutate_bytes(p: &mut Prng, b: &mut Vec<u8>) -> &'static str {
+    if b.is_empty() {
+        b.push(p.next() as u8);
+        return "push";
+    }
+    match p.below(12) {
+        0 | 1 | 2 => {
+            let i = p.below(b.len() as u64) as usize;
+            b[i] ^= 1 << p.below(8);
+            "bitflip"
+        }
+        3 => {
+            let i = p.below(b.len() as u64) as usize;
+            b[i] = p.next() as u8;
+            "byteset"
+        }
+        4 => {
+            let i = p.below(b.len() as u64) as usize;
+            b[i] = *p.pick(&[0u8, 1, 2, 250, 251, 252, 253, 254, 255]);
+            "bytespecial"
+        }
+        5 => {
+            let i = p.below(b.len() as u64 + 1) as usize;
+            b.truncate(i);
+            "truncate"
+        }
+        6 => {
+            let k = p.range(1, 16);
+            for _ in 0..k {
+                b.push(if p.chance(1, 2) { 0 } else { p.next() as u8 });
+            }
+            "append"
+        }
+        7 => {
+            let i = p.below(b.len() as u64) as usize;
+            b.remove(i);
+            "delete"
+        }
+        8 => {
+            let i = p.below(b.len() as u64 + 1) as usize;
+            b.insert(i, p.next() as u8);
+            "insert"
+        }
+        9 => {
+            // two flips
+            for _ in 0..2 {
+                let i = p.below(b.len() as u64) as usize;
+                b[i] ^= 1 << p.below(8);
+            }
+            "bitflip2"
+        }
+        10 => {
+            // overwrite an 8-byte window with a special float
+            if b.len() >= 8 {
+                let i = p.below(b.len() as u64 - 7) as usize;
+                let v: f64 = *p.pick(&[f64::NAN, f64::INFINITY, -1.0, 0.0, 2.0, 1e-10, -0.0]);
+                b[i..i + 8].copy_from_slice(&v.to_le_bytes());
+            }
+            "float"
+        }
+        _ => {
+            // replace a byte by a non-canonical varint of the same value (if < 251)
+            let i = p.below(b.len() as u64) as usize;
+            let v = b[i];
+            if v < 251 {
+                b[i] = 251;
+                b.insert(i + 1, v);
+                b.insert(i + 2, 0);
+            }
+            "noncanon"
+        }
+    }
+}
+
+fn gen_hostile_case(p: &mut Prng, id: &str, w: &mut dyn Write) {
+    let m = small_machine(p);
+    let raw = bincode_of(&m);
+    let good = m.serialize();
+    let (tag, s): (String, String) = match p.below(20) {
+        // --- string level ---
+        0 => {
+            let mut b = good.clone().into_bytes();
+            let i = p.below(b.len() as u64) as usize;
+            b[i] = 0x20 + p.below(0x5f) as u8;
+            ("s-ascii".into(), String::from_utf8(b).unwrap())
+        }
+        1 => {
+            let cut = p.below(good.len() as u64 + 1) as usize;
+            ("s-trunc".into(), good[..cut].to_string())
+        }
+        2 => {
+            let cut = p.below(4) as usize;
+            ("s-short".into(), good[..cut.min(good.len())].to_string())
+        }
+        3 => {
+            let v = *p.pick(&["00", "01", "03", "20", "2 ", " 2", "99", "0２", "２0", "0x", "-2", "+2"]);
+            ("s-version".into(), format!("{}{}", v, &good[2..]))
+        }
+        4 => {
+            let mut cs: Vec<char> = good.chars().collect();
+            let i = p.below(cs.len() as u64) as usize;
+            cs[i] = *p.pick(&['é', '日', '\u{80}', '\u{7f}', '\u{0}', '＝', '\u{1F600}']);
+            ("s-nonascii".into(), cs.into_iter().collect())
+        }
+        5 => {
+            let extra = *p.pick(&["\n", " ", "=", "==", "====", "A", "AA", "AAA", "AAAA", "\r\n", "\0"]);
+            ("s-suffix".into(), format!("{}{}", good, extra))
+        }
+        6 => {
+            // padding manipulations
+            let t = good.trim_end_matches('=').to_string();
+            let s = match p.below(5) {
+                0 => t,
+                1 => format!("{}=", t),
+                2 => format!("{}===", t),
+                3 => {
+                    let mut b = good.clone().into_bytes();
+                    let i = 2 + p.below(b.len() as u64 - 2) as usize;
+                    b[i] = b'=';
+                    String::from_utf8(b).unwrap()
+                }
+                _ => format!("{}=", good),
+            };
+            ("s-padding".into(), s)
+        }
+        7 => {
+            // non-canonical trailing bits: bump the last symbol before the padding
+            let mut b = good.clone().into_bytes();
+            let mut i = b.len() - 1;
+            while i > 2 && b[i] == b'=' {
+                i -= 1;
+            }
+            let alphabet = b"ABCDEFGHIJKLMNOPQRSTUVWXYZabcdefghijklmnopqrstuvwxyz0123456789+/";
+            let pos = alphabet.iter().position(|c| *c == b[i]).unwrap_or(0);
+            b[i] = alphabet[(pos + 1 + p.below(3) as usize) % 64];
+            ("s-trailing-bits".into(), String::from_utf8(b).unwrap())
+        }
+        8 => {
+            // random strings
+            let len = p.below(80) as usize;
+            let mut s = String::new();
+            if p.chance(2, 3) {
+                s.push_str(&format!("{:02}", VERSION));
+            }
+            let alpha: &[u8] = if p.chance(1, 2) {
+                b"ABCDEFGHIJKLMNOPQRSTUVWXYZabcdefghijklmnopqrstuvwxyz0123456789+/="
+            } else {
+                b" !\"#$%&'()*+,-./0123456789:;<=>?@ABCXYZ[\\]^_`abcxyz{|}~\n\t"
+            };
+            for _ in 0..len {
+                s.push(*p.pick(alpha) as char);
+            }
+            ("s-random".into(), s)
+        }
+        9 => {
+            // url-safe alphabet / lowercase / whitespace inside
+            let s = match p.below(3) {
+                0 => good.replace('+', "-").replace('/', "_"),
+                1 => good.to_lowercase(),
+                _ => {
+                    let cut = 2 + p.below(good.len() as u64 - 2) as usize;
+                    format!("{}\n{}", &good[..cut], &good[cut..])
+                }
+            };
+            ("s-alphabet".into(), s)
+        }
+        // --- compressed level ---
+        10 | 11 | 12 => {
+            let mut z = deflate(&raw);
+            let t = mutate_bytes(p, &mut z);
+            (format!("z-{}", t), b64_string(&z))
+        }
+        13 => {
+            // not a zlib stream at all / raw deflate / gzip-like header / empty
+            let z: Vec<u8> = match p.below(4) {
+                0 => vec![],
+                1 => raw.clone(),
+                2 => deflate(&raw)[2..].to_vec(),
+                _ => (0..p.below(64)).map(|_| p.next() as u8).collect(),
+            };
+            ("z-garbage".into(), b64_string(&z))
+        }
+        14 => {
+            // valid stream, other compression levels (stored blocks, fast): must still parse
+            let level = *p.pick(&[0u32, 1, 6]);
+            ("z-level".into(), b64_string(&deflate_level(&raw, level)))
+        }
+        // --- bincode level ---
+        _ => {
+            let mut b = raw.clone();
+            let k = p.range(1, 3);
+            let mut t = "";
+            for _ in 0..k {
+                t = mutate_bytes(p, &mut b);
+            }
+            (format!("b-{}", t), b64_string(&deflate(&b)))
+        }
+    };
+    observe_hostile(id, &format!("hostile {}", tag), &s, w);
+}
+
+// ---------------------------------------------------------------------------------------------
+// compression bombs
+// ---------------------------------------------------------------------------------------------
+
+fn gen_bomb_case(p: &mut Prng, id: &str, i: u64, big: u64, w: &mut dyn Write) {
+    let m = small_machine(p);
+    let raw = bincode_of(&m);
+    let mib = 1usize << 20;
+    let (tag, payload): (&str, Vec<u8>) = match i % 8 {
+        0 => ("zeros-1MiB+1", vec![0u8; mib + 1]),
+        1 => ("zeros-4MiB", vec![0u8; 4 * mib]),
+        2 => {
+            // a valid machine followed by a megabyte of zeros
+            let mut v = raw.clone();
+            v.extend(std::iter::repeat(0u8).take(mib + 17));
+            ("machine+zeros", v)
+        }
+        3 => ("zeros-1MiB", vec![0u8; mib]),
+        4 => {
+            // plausible header, then a state vector that claims 2^40 states
+            let mut v = vec![0u8, 0, 0, 0, 0, 0, 0, 0, 0, 0, 0, 0, 0, 0, 0, 0, 0, 0];
+            v.push(253);
+            v.extend_from_slice(&(1u64 << 40).to_le_bytes());
+            v.extend(std::iter::repeat(0u8).take(mib));
+            ("huge-len", v)
+        }
+        5 => {
+            let n = if big > 0 { 64 * mib } else { 8 * mib };
+            ("ones", vec![0xffu8; n])
+        }
+        6 => {
+            // many minimal states: 16 zero bytes each; a *valid-looking* body that is too long
+            let mut v = vec![0u8; 18];
+            v.push(252);
+            v.extend_from_slice(&(200_000u32).to_le_bytes());
+            v.extend(std::iter::repeat(0u8).take(200_000 * 16));
+            ("many-states", v)
+        }
+        _ => {
+            let n = if big > 0 { 256 * mib } else { 16 * mib };
+            ("zeros-big", vec![0u8; n])
+        }
+    };
+    let z = deflate(&payload);
+    drop(payload);
+    let s = b64_string(&z);
+    observe_hostile(id, &format!("bomb {} z={}", tag, z.len()), &s, w);
+}
+
+// ---------------------------------------------------------------------------------------------
+// legacy v1 format
+// ---------------------------------------------------------------------------------------------
+
+const V1_SEEDS: &[&str] = &[
+    "789cedca2101000000c230e85f1a8387009f9e351d051503ca0003",
+    "789cd5cfbb0900200c04d08b833886adb889389f5bb9801be811acb58ae2837ce02010c158b070555c9538b6377a64dbb0ceff242c20b79038507dd169fbede9f629bf6f021efa1b66",
+    "789ccdd14b4802411807f0d122d630a80e75e920646a9db2d24bd48c9587b012bc04415d32e856eca107d4210f792809a38804e910f400835ca88387d8961e144920b551aed8b59032cc0e59d16c0f41962510dafa0d0cc3cc77f8bef9cbc0b7e0092f06f131832c076f3f21c0e88d464f4c1b51449d3731df6b432feb0fa1f6e20e841f3fc801e5bd5f3d28efa43d8bbc1a1a5f6692e12589b860c84f62f752fbcd3e14605fb549f6bb6de86e0c1a7a028d88f09575d9a7dad2491120ff6279b0a1ca84ecf551ab6b418502adca267a486bc28f5fb20d4a7cb2db0d32fe34c94067ccda6d64afe1dba926585a782e5a2fb5dcdd9496721e42dfd5e35aed5e04865a0a9a13c3ec9ff62707db89d7b391233d1ae7a35458d219ce3049dd40b40827966d52e24a1c4a0be362a05fcde9923b97d0ecf1fa2b9f39c14f181ceeb914c74273f52cb9143e862b7d1554dd565850f7dfbd03f1ca70ff",
+];
+
+fn v1_float(p: &mut Prng) -> f64 {
+    match p.below(16) {
+        0 => 0.0,
+        1 => 1.0,
+        2 => 0.5,
+        3 => 0.1,
+        4 => 1.0 / 3.0,
+        5 => 1e-50,
+        6 => 1e40,
+        7 => f64::from_bits(0x7ff8_0000_0000_0000 | (p.next() & 0xf_ffff_ffff_ffff)),
+        8 => -0.0,
+        9 => -1e-320,
+        10 => f64::INFINITY,
+        11 => 1e-40,
+        12 => 1.0 + f64::EPSILON,
+        13 => 0.49999999,
+        14 => f64::from_bits(p.next()),
+        _ => 2.0,
+    }
+}
+
+fn v1_dist(p: &mut Prng, out: &mut Vec<u8>, sane: bool) {
+    if sane && p.chance(3, 4) {
+        let ty: u16 = *p.pick(&[0u16, 1, 2, 3, 4, 5, 6, 8, 9, 10, 11]);
+        out.extend_from_slice(&ty.to_le_bytes());
+        let (a, b): (f64, f64) = if ty == 4 {
+            (*p.pick(&[0.0, 10.0, 1e9, 0.7, 250.9, 1.8446744073709552e19, -3.0]), *p.pick(&[0.5, 1.0, 0.0, 1e-9]))
+        } else {
+            *p.pick(&[(1.0, 2.0), (0.5, 1.0), (1.0, 1.0), (2.0, 100.0), (5e-324, 1.0)])
+        };
+        out.extend_from_slice(&a.to_le_bytes());
+        out.extend_from_slice(&b.to_le_bytes());
+        out.extend_from_slice(&v1_float(p).to_le_bytes());
+        out.extend_from_slice(&v1_float(p).to_le_bytes());
+        return;
+    }
+    let ty: u16 = match p.below(8) {
+        0 => 0,
+        1 => 1,
+        2 => p.below(12) as u16,
+        3 => 4,
+        4 => p.next() as u16,
+        _ => p.range(1, 10) as u16,
+    };
+    out.extend_from_slice(&ty.to_le_bytes());
+    let (a, b) = match p.below(4) {
+        0 => (v1_float(p), v1_float(p)),
+        1 => (1.0, 2.0),
+        2 => (*p.pick(&[0.0, 10.0, 1e9, 1e10, 1.8446744073709552e19, -5.0, 0.7, f64::NAN]), *p.pick(&[0.5, 1.0, 0.0, 1e-10, 2.0])),
+        _ => (*p.pick(&[0.5, 1.0, 2.0, 100.0]), *p.pick(&[0.5, 1.0, 2.0, 100.0])),
+    };
+    out.extend_from_slice(&a.to_le_bytes());
+    out.extend_from_slice(&b.to_le_bytes());
+    out.extend_from_slice(&v1_float(p).to_le_bytes());
+    out.extend_from_slice(&v1_float(p).to_le_bytes());
+}
+
+/// a structurally well-formed v1 buffer (version included); `claim` = the state count written
+fn v1_buffer(p: &mut Prng, n: usize, claim: usize, sane: bool) -> Vec<u8> {
+    let mut b = vec![];
+    b.extend_from_slice(&1u16.to_le_bytes());
+    b.extend_from_slice(&p.pick(&[0u64, 1, 1000, u64::MAX]).to_le_bytes());
+    b.extend_from_slice(&(if sane { *p.pick(&[0.0, 0.5, 1.0]) } else { v1_float(p) }).to_le_bytes());
+    b.extend_from_slice(&p.pick(&[0u64, 1, 1000, u64::MAX]).to_le_bytes());
+    b.extend_from_slice(&(if sane { *p.pick(&[0.0, 0.5, 1.0]) } else { v1_float(p) }).to_le_bytes());
+    b.push(p.below(3) as u8);
+    b.extend_from_slice(&(claim as u16).to_le_bytes());
+    for _ in 0..n {
+        for _ in 0..3 {
+            v1_dist(p, &mut b, sane);
+        }
+        for _ in 0..4 {
+            b.push(*p.pick(&[0u8, 1, 1, 2, 255]));
+        }
+        // 8 rows of (claim + 2) f64; only 7 are read
+        for _row in 0..8 {
+            let mut left: f64 = 1.0;
+            for i in 0..claim + 2 {
+                let v = if sane {
+                    if i != claim && p.chance(1, 3) && left > 0.0 {
+                        // includes f32 rounding ties, values that round up to 1.0 / down to a
+                        // subnormal, and the smallest f32 subnormal
+                        let rare = p.chance(1, 4);
+                        let x = *p.pick(&[
+                            1.0,
+                            0.5,
+                            0.25,
+                            0.1,
+                            1.0 / 3.0,
+                            1e-40,
+                            1.0000000001,
+                            0.5 + 1.0 / 33554432.0,
+                            0.5 + 3.0 / 33554432.0,
+                            1.401298464324817e-45,
+                            0.2,
+                            0.125,
+                            0.3,
+                            1.0,
+                            0.5,
+                            0.25,
+                            0.1,
+                            0.05,
+                            0.01,
+                            if rare { 0.7e-45 } else { 0.15 },
+                            if rare { 0.7006492321624086e-45 } else { 0.35 },
+                            if rare { 0.71e-45 } else { 0.45 },
+                        ]);
+                        let x = if x > left { left } else { x };
+                        left -= x;
+                        x
+                    } else {
+                        0.0
+                    }
+                } else if p.chance(1, 4) {
+                    v1_float(p)
+                } else {
+                    0.0
+                };
+                b.extend_from_slice(&v.to_le_bytes());
+            }
+        }
+    }
+    b
+}
+
+fn gen_v1_case(p: &mut Prng, id: &str, i: u64, w: &mut dyn Write) {
+    if (i as usize) < V1_SEEDS.len() {
+        observe_v1(id, "v1 seed", V1_SEEDS[i as usize], w);
+        return;
+    }
+    let (tag, s): (String, String) = match p.below(12) {
+        0 | 1 | 2 => {
+            let n = if p.chance(1, 12) { 0 } else { p.range(1, 4) as usize };
+            let b = v1_buffer(p, n, n, true);
+            ("sane".into(), hex(&deflate(&b)))
+        }
+        3 | 4 => {
+            let n = p.range(0, 5) as usize;
+            let b = v1_buffer(p, n, n, false);
+            ("wild".into(), hex(&deflate(&b)))
+        }
+        5 => {
+            // state count and body disagree
+            let n = p.range(0, 4) as usize;
+            let claim = *p.pick(&[0usize, 1, 2, 5, 255, 256, 65535]);
+            let b = v1_buffer(p, n, claim.min(6), true);
+            let mut b = b;
+            b[2 + 33..2 + 35].copy_from_slice(&(claim as u16).to_le_bytes());
+            ("count".into(), hex(&deflate(&b)))
+        }
+        6 | 7 => {
+            let n = p.range(1, 3) as usize;
+            let sane = p.chance(1, 2);
+            let mut b = v1_buffer(p, n, n, sane);
+            let t = mutate_bytes(p, &mut b);
+            (format!("raw-{}", t), hex(&deflate(&b)))
+        }
+        8 => {
+            // short buffers, wrong versions
+            let b: Vec<u8> = match p.below(5) {
+                0 => vec![],
+                1 => vec![1],
+                2 => vec![1, 0],
+                3 => {
+                    let mut b = v1_buffer(p, 1, 1, true);
+                    let v = *p.pick(&[0u16, 2, 256, 257, 65535]);
+                    b[0..2].copy_from_slice(&v.to_le_bytes());
+                    b
+                }
+                _ => {
+                    let mut b = vec![1u8, 0];
+                    let k = p.below(40);
+                    for _ in 0..k {
+                        b.push(p.next() as u8);
+                    }
+                    b
+                }
+            };
+            ("short".into(), hex(&deflate(&b)))
+        }
+        9 => {
+            // string level: odd length, non-hex, upper case, truncation
+            let seed = *p.pick(V1_SEEDS);
+            let s = match p.below(5) {
+                0 => seed[..seed.len() - 1].to_string(),
+                1 => seed.to_uppercase(),
+                2 => {
+                    let mut b = seed.as_bytes().to_vec();
+                    let i = p.below(b.len() as u64) as usize;
+                    b[i] = *p.pick(&[b'g', b' ', b'x', b'G', b'\n']);
+                    String::from_utf8(b).unwrap()
+                }
+                3 => {
+                    let cut = 2 * p.below(seed.len() as u64 / 2 + 1) as usize;
+                    seed[..cut].to_string()
+                }
+                _ => format!("{}é", seed),
+            };
+            ("str".into(), s)
+        }
+        10 => {
+            // compressed level mutation of a seed
+            let seed = *p.pick(V1_SEEDS);
+            let mut z = hex::decode(seed).unwrap();
+            let t = mutate_bytes(p, &mut z);
+            (format!("z-{}", t), hex(&z))
+        }
+        _ => {
+            // decompressed level mutation of a seed
+            let seed = *p.pick(V1_SEEDS);
+            let z = hex::decode(seed).unwrap();
+            let mut d = ZlibDecoder::new(z.as_slice());
+            let mut b = vec![];
+            d.read_to_end(&mut b).unwrap();
+            let t = mutate_bytes(p, &mut b);
+            (format!("seed-{}", t), hex(&deflate(&b)))
+        }
+    };
+    observe_v1(id, &format!("v1 {}", tag), &s, w);
+}
+
+/// Smallest prefix of a fixed sequence of noise-filled states whose serialized form no longer
+/// parses (DESIGN section 9, F2): bisection over the number of states.
+fn find_f2(seed: u64, w: &mut dyn Write) {
+    let mut p = Prng::new(seed ^ 0xf2);
+    let total = 1200usize;
+    let states: Vec<State> = (0..total)
+        .map(|_| {
+            let mut s = State::new(enum_map! { _ => vec![] });
+            let nd = |p: &mut Prng| Dist {
+                dist: DistType::Normal { mean: f64::from_bits(p.next()), stdev: pos_f64(p, true) },
+                start: f64::from_bits(p.next()),
+                max: f64::from_bits(p.next()),
+            };
+            s.action = Some(Action::BlockOutgoing { bypass: false, replace: false, timeout: nd(&mut p), duration: nd(&mut p), limit: Some(nd(&mut p)) });
+            s.counter = (Some(Counter::new_dist(Operation::Set, nd(&mut p))), Some(Counter::new_dist(Operation::Set, nd(&mut p))));
+            s
+        })
+        .collect();
+    let mk = |k: usize| Machine {
+        allowed_padding_packets: 0,
+        max_padding_frac: 0.0,
+        allowed_blocked_microsec: 0,
+        max_blocking_frac: 0.0,
+        states: states[..k].to_vec(),
+    };
+    let fails = |k: usize| {
+        let m = mk(k);
+        m.validate().is_ok() && Machine::from_str(&m.serialize()).is_err()
+    };
+    if !fails(total) {
+        let _ = writeln!(w, "# no failing prefix up to {} states", total);
+        return;
+    }
+    let (mut lo, mut hi) = (1usize, total); // fails(hi), assume !fails(lo)
+    if fails(lo) {
+        hi = lo;
+    }
+    while hi - lo > 1 {
+        let mid = (lo + hi) / 2;
+        if fails(mid) {
+            hi = mid;
+        } else {
+            lo = mid;
+        }
+    }
+    let _ = writeln!(w, "# smallest failing prefix: {} states (the prefix with {} states parses)", hi, lo);
+    observe_valid(&format!("f2-min-{}", hi), "valid f2-min", &bincode_of(&mk(hi)), w);
+    observe_valid(&format!("f2-below-{}", lo), "valid f2-below", &bincode_of(&mk(lo)), w);
+}
+
+/// `parse_state` is public and takes `num_states` as an argument: with overflow checks on, a
+/// count near `usize::MAX` panics in the length expression (no string can reach this: the v1
+/// reader only passes a u16)
+fn probe_state(w: &mut dyn Write) {
+    for n in [usize::MAX, usize::MAX - 1, 1usize << 61, (1usize << 61) - 3, 1 << 50, 65535] {
+        let r = catch_unwind(AssertUnwindSafe(|| maybenot::parsing::parse_state(vec![0u8; 300], n)));
+        let _ = writeln!(
+            w,
+            "probe parse_state num_states={} -> {}",
+            n,
+            match r {
+                Ok(Ok(_)) => "ok".to_string(),
+                Ok(Err(e)) => format!("err {}", e),
+                Err(p) => format!("panic {}", panic_msg(&p)),
+            }
+        );
     }
 }
